@@ -1,5 +1,5 @@
 """C16  The penalty parameter is positive and never decreases (L1 loop + policy step)."""
-from . import loop
+from . import loop, twin
 
 OWNED = ["C16."]
 REQUIRED = [
@@ -10,6 +10,8 @@ REQUIRED = [
     "C16.dualnorm_at_most_tenfold",
     "C16.trial_uses_solver_rho",
     "C16.rho_positive_in_callback",
+    "C16.second_solve.initial_rho_is_params_rho",
+    "C16.second_solve.dualnorm_at_most_tenfold",
 ]
 META = dict(
     functions_encoded=loop.FUNCTIONS,
@@ -21,11 +23,17 @@ META = dict(
 )
 
 
+def second_solves(tier):
+    o = dict(mulmode="uf", timeout_ms=20000)
+    K = 2 if tier == "quick" else 3
+    return [dict(module="twin", fn="h_second_solve_penalty", shape=dict(K=K, policy=p, vars=["boxed"], cons=c), opts=o) for p, c in (("DualNorm", ["eq0"]), ("Constant", ["eq0"]), ("DualEquilibration", ["eq0"]), ("ObjectiveFilter", []))]
+
+
 def tasks(tier):
     if tier == "quick":
         combos = [dict(policy=p, cons=["eq0"]) for p in loop.POLICIES] + [dict(policy=p, cons=[]) for p in ("Constant", "DualNorm", "ObjectiveFilter")]
         # two constraint rows: the multiplier norm is a genuine vector norm (max-norm and 2-norm differ)
         combos += [dict(policy="DualNorm", cons=["eq0", "eq0"]), dict(policy="DualNorm", cons=["eq0", "ge"], step_failures=True), dict(policy="Constant", cons=["eq0", "eq0"])]
-        return loop.loop_tasks(combos, 2) + loop.loop_tasks([dict(policy=p, cons=[]) for p in loop.POLICIES], 4)
+        return loop.loop_tasks(combos, 2) + loop.loop_tasks([dict(policy=p, cons=[]) for p in loop.POLICIES], 4) + second_solves(tier)
     combos = [dict(policy=p, cons=c) for p in loop.POLICIES for c in (["eq0"], ["ge"])] + [dict(policy="DualNorm", cons=["eq0", "eq0"]), dict(policy="DualNorm", cons=["eq0", "ge"], step_failures=True), dict(policy="DualNorm", cons=["ranged", "le"], vars=["lower"])]
-    return loop.loop_tasks(combos, 3) + loop.loop_tasks([dict(policy=p, cons=[]) for p in loop.POLICIES], 4)
+    return loop.loop_tasks(combos, 3) + loop.loop_tasks([dict(policy=p, cons=[]) for p in loop.POLICIES], 4) + second_solves(tier)
